@@ -307,6 +307,17 @@ func (f *Flat) SiteConsumed(r *Report, rule, cons string, fi *FuncInfo, s callSi
 				}
 			}
 		}
+		// handed straight to a class-keeping helper whose result is returned: return wrap("op", call(...))
+		if rs, ok := n.Ast.(*ast.ReturnStmt); ok {
+			for _, e := range rs.Results {
+				if c, ok := ast.Unparen(e).(*ast.CallExpr); ok && !o.Require {
+					if ok, why := p.classThrough(f.Pkg.TypesInfo, c, func(a ast.Expr) bool { return ast.Unparen(a) == ast.Expr(s.Call) }); ok {
+						r.Hold(rule, cons, p.pos(s.Call), "returned "+why)
+						return true
+					}
+				}
+			}
+		}
 		r.Viol(rule, cons, p.pos(s.Call), "error result is consumed inside an expression the checker does not accept as propagation")
 		return false
 	default:
